@@ -232,8 +232,9 @@ def main(argv=None):
                    "the C wrappers forward unchanged (C19)", "z3 (LIA with bv2int for the unmarshalled scalar)"]
     chk.assumptions = ["params = (P, [s]P) for the master scalar s (setup's post-state, and what any honest holder of an unmarshalled master key publishes)"]
     # lower layers whose specifications this check relies on: their obligations are part of this check's claim (framework.Check.include)
-    for dep in ['C06', 'C09', 'C02', 'C03', 'C04', 'C05', 'C01', 'C10', 'C19', 'C20']:
+    for dep in ['C06', 'C09', 'C02', 'C03', 'C04', 'C05', 'C01', 'C07', 'C10', 'C19', 'C20']:
         chk.include(dep)
+    chk.include("C15", only=r"^fq12-io")      # the symmetric key is hashed from Fq12::write_big_endian of the pairing value
     chk.run()
     chk.finish()
 
